@@ -34,7 +34,7 @@ CONSTANTS
   UsageOn,       \* usage database configured?
   Blur,          \* blur interval, 0 = none
   Welcome,       \* token describing the configured welcome notices
-  BadMoods       \* mood values SQLite cannot bind (JSON arrays / objects): outside the input domain of the
+  BadMoods       \* mood / phase / body / id values SQLite cannot bind (JSON arrays / objects): outside the input domain of the
                  \* properties, but the harness sends them to provoke a failure in the middle of a close
 
 ABSENT == "~"      \* a missing message field / SQL NULL string / Python None
@@ -429,6 +429,8 @@ Handle(S, c, m, gid, pick) ==
             Fin([cn2 EXCEPT !.held = TRUE, !.listening = TRUE], r.db, u,
                 [k \in DOMAIN old |-> FMsg(c, old[k], CI(tr))], tr)
   [] m.type = "add" ->
+    \* a phase / body / id SQLite cannot bind: the INSERT (the first write) raises
+    IF {m.phase, m.body, m.id} \cap BadMoods # {} THEN Boom(d, u, <<>>, "ProgrammingError") ELSE
     LET d2 == AddMsg(d, a, cn.mboxId, s, m.phase, m.body, m.id, t)
         x  == d2.msgs[Len(d2.msgs)]
         ls == SetToSeq(Listeners(S.conn, a, cn.mboxId))
